@@ -253,6 +253,7 @@ struct VolRoundtrip : Family {
 				continue;
 			}
 			if (!vol) { ctx.event("skip"); continue; }
+			maybeCloneArchive(plan, ctx, vol, oi, "C01.listing");
 			ArchiveChecker ck{ctx, plan, *vol, vol.get(), exp, "C01", "C01.listing", "C01.stream-bytes", "C01.extract-bytes", "C01.lookup-anycase"};
 			if (op.verb == "listing") ck.listing();
 			else if (op.verb == "stream") ck.stream(static_cast<size_t>(op.u("i")), op.u("rseed"), op.u("byname") != 0, op.u("case"));
@@ -311,6 +312,7 @@ struct VolForeign : Family {
 			const Line& op = plan.ops[oi];
 			ctx.setOp(oi);
 			ctx.schedNote(op.verb);
+			maybeCloneArchive(plan, ctx, vol, oi, "C02.foreign-listing");
 			ArchiveChecker ck{ctx, plan, *vol, vol.get(), ms, "C02", "C02.foreign-listing", "C02.foreign-payload", "C02.foreign-payload", "C02.foreign-listing"};
 			if (op.verb == "listing") ck.listing();
 			else if (op.verb == "stream") ck.stream(static_cast<size_t>(op.u("i")), op.u("rseed"), op.u("byname") != 0, op.u("case"));
